@@ -116,6 +116,7 @@ type scope struct {
 	env   map[types.Object]string
 	local bool                      // identifiers of the analysed function may occur (aliases / ok-vars resolve)
 	bdef  map[types.Object]*Formula // boolean locals of an inlined predicate (defined once, before use)
+	rest  func(pos token.Pos) *Formula // opaque value of the part of a predicate body that is not inlined
 }
 
 type FactEngine struct {
@@ -879,7 +880,26 @@ func (e *FactEngine) inlinePredicate(call *ast.CallExpr, sc *scope) (*Formula, b
 	}
 	e.depth++
 	defer func() { e.depth-- }()
+	// what the inlinable prefix of the body does not decide is one opaque atom per call site
+	// (it depends on the arguments: writing one of their paths forgets it)
+	var paths []string
+	key := fi.Key() + "("
+	for i, a := range call.Args {
+		if i > 0 {
+			key += ","
+		}
+		key += e.canon(a, sc, &paths)
+	}
+	if sel, ok := ast.Unparen(call.Fun).(*ast.SelectorExpr); ok && fi.Decl.Recv != nil {
+		key += ";" + e.canon(sel.X, sc, &paths)
+	}
+	sc2.rest = func(pos token.Pos) *Formula {
+		return e.atomOf(fmt.Sprintf("rest:%s)@%d", key, pos), paths)
+	}
 	f, ok := e.predBody(fi.Decl.Body.List, sc2)
+	if ok && f.k == fAtom && strings.HasPrefix(f.atom, "rest:") {
+		return nil, false // nothing was inlined: keep the call itself as the atom
+	}
 	return f, ok
 }
 
@@ -958,6 +978,9 @@ func (e *FactEngine) predBody(stmts []ast.Stmt, sc *scope) (*Formula, bool) {
 			return nil, false
 		}
 		return mkOr(mkAnd(c, thenF), mkAnd(mkNot(c), elseF)), true
+	}
+	if sc.rest != nil {
+		return sc.rest(stmts[0].Pos()), true
 	}
 	return nil, false
 }
@@ -1304,7 +1327,11 @@ func (e *FactEngine) newUniverse(req *Formula, body *ast.BlockStmt, target ...as
 									m[f.atom] = true
 								}
 							default:
-								if strings.HasPrefix(rc, "#") {
+								if b, isB := t.Underlying().(*types.Basic); isB && b.Kind() == types.Bool {
+									if f := e.boolForm(l, sc); f.k == fAtom && len(m) < 14 {
+										m[f.atom] = true
+									}
+								} else if strings.HasPrefix(rc, "#") {
 									if f := e.eqAtom(lc, rc, paths); f.k == fAtom && len(m) < 14 {
 										m[f.atom] = true
 									}
